@@ -83,10 +83,20 @@ Qed.
 Lemma nrec_eqb_refl : forall x, nrec_eqb x x = true.
 Proof. intros [[n a] r]. cbn. rewrite String.eqb_refl, N.eqb_refl. destruct r; reflexivity. Qed.
 
+Lemma qent_eqb_refl : forall x, qent_eqb x x = true.
+Proof. intros [[[t a] n] v]. cbn. rewrite !Z.eqb_refl, N.eqb_refl, String.eqb_refl. reflexivity. Qed.
+
+Lemma queue_same_refl : forall l, queue_same l l = true.
+Proof.
+  intros l. unfold queue_same. rewrite Nat.eqb_refl, andb_true_r, andb_diag.
+  apply forallb_forall. intros x Hx. apply existsb_exists. exists x. split; [exact Hx|apply qent_eqb_refl].
+Qed.
+
 Lemma obs_same_model : forall cfg accts names s b1 b2 q1 q2,
   obs_same (model_obs cfg accts names s b1 q1) (model_obs cfg accts names s b2 q2) = true.
 Proof.
-  intros. unfold obs_same, recs_same, accts_same. cbn [model_obs o_recs o_accts o_owners o_maxlen].
+  intros. unfold obs_same, recs_same, accts_same. cbn [model_obs o_recs o_accts o_owners o_maxlen o_queue].
+  rewrite queue_same_refl, andb_true_r.
   rewrite !list_eqb_refl, Z.eqb_refl; try reflexivity.
   - intros [x|]; cbn; [apply nrec_eqb_refl|reflexivity].
   - intros x. apply list_eqb_refl. apply N.eqb_refl.
@@ -331,6 +341,22 @@ Section Step.
     apply obs_same_model.
   Qed.
 End Step.
+
+(** the raw-queue clause of the checker on the model: [ic_queue] *)
+Lemma p_queue_model : forall cfg accts names s ok q,
+  inv_core s -> p_queue (model_obs cfg accts names s ok q) = true.
+Proof.
+  intros cfg accts names s ok q Hc. unfold p_queue. apply forallb_forall. intros x Hx.
+  apply In_obs_recs in Hx. destruct Hx as [r [Hr ->]]. cbn [orec_of oexp oacct oname oval].
+  destruct (a_exp r) as [e|] eqn:He; [|reflexivity].
+  unfold qmem. apply existsb_exists. exists (e, a_acct r, ank (a_name r), a_val r).
+  split; [|apply qent_eqb_refl]. cbn [model_obs o_queue]. unfold model_queue.
+  apply in_map_iff. exists (e, akey r). split; [reflexivity|]. apply (ic_queue _ Hc); assumption.
+Qed.
+
+Theorem queue_checker_holds_on_model_histories : forall cfg accts names t0 ops ok q,
+  p_queue (model_obs cfg accts names (run cfg t0 ops) ok q) = true.
+Proof. intros. apply p_queue_model. apply (run_inv0 cfg t0 ops). Qed.
 
 (** * over histories *)
 Lemma in_univ_run_from : forall cfg accts names ops s,
